@@ -38,8 +38,9 @@ Definition set_queue (g : group) (q : list packet) : group :=
 Definition set_queue_last (g : group) (q : list packet) (l : Z) : group :=
   {| g_off := g_off g; g_nchan := g_nchan g; g_queue := q; g_sync := g_sync g; g_last := l |}.
 
-Definition last_sn (q : list packet) (d : Z) : Z :=
-  match rev q with [] => d | p :: _ => p_sn p end.
+(* queue[len(queue)-1].SequenceNumber() (d for an empty queue); written as a left fold so that it
+   evaluates in linear time on queues of tens of thousands of packets *)
+Definition last_sn (q : list packet) (d : Z) : Z := fold_left (fun _ p => p_sn p) q d.
 
 (* AbacoGroup.samplePackets, the part that concerns sequence numbers: seqnumsync = sequence number
    of the first sampled packet that carries a usable time stamp (stays 0 if none does),
